@@ -11,6 +11,7 @@ import Mistletoe.Props.C03
 import Mistletoe.Props.C03_Lists
 import Mistletoe.Props.C09
 import Mistletoe.Props.C09_Code
+import Mistletoe.Props.C09_Lists
 import Mistletoe.Props.C19
 import Mistletoe.Props.C10_Reflow
 import Mistletoe.Props.C06
@@ -185,6 +186,30 @@ def c03Fragment2 (j : Json) : Except String Json := do
                     ("text", Driver.str (ComposeL.writes2 ts).flatten),
                     ("html", Driver.str (ComposeL.htmlOf2 o ts))])
 
+/-- a tree of the C09 fragment with lists: a leaf block of `blkOf` or
+    {"k":"list","ordered":b,"start":n,"marker":"-","pad":n,"loose":b,"items":[[tree, …], …]} -/
+partial def mbOf (j : Json) : Except String MdRound.MB := do
+  let k ← j.getObjValAs? String "k"
+  match k with
+  | "list" => do
+    let mk ← match (← Driver.getStr j "marker") with
+      | [c] => pure c
+      | _ => throw "marker: one character"
+    let items ← (← Driver.getArr j "items").toList.mapM (fun it => do (← Driver.asArr it).toList.mapM mbOf)
+    pure (.list (← j.getObjValAs? Bool "ordered") (← j.getObjValAs? Nat "start") mk (← j.getObjValAs? Nat "pad")
+      (← j.getObjValAs? Bool "loose") items)
+  | _ => do pure (.leaf (← blkOf j))
+
+/-- op "c09.lists": {"forest": [tree], "depth": k, "nw": Bool} → the hypotheses of `C09_lists_roundtrip_partial` (`MB.oks nw`,
+    tab-free lines when k > 0) and the text the theorem speaks about -/
+def c09Lists (j : Json) : Except String Json := do
+  let ts ← (← Driver.getArr j "forest").toList.mapM mbOf
+  let k := (j.getObjValAs? Nat "depth").toOption.getD 0
+  let nw := (j.getObjValAs? Bool "nw").toOption.getD false
+  let lines := MdRound.wrs ts
+  let ok := !ts.isEmpty && MdRound.MB.oks nw ts && (k == 0 || lines.all (fun l => !l.contains '\t'))
+  pure (Json.mkObj [("ok", Json.bool ok), ("text", Driver.str (Props.C09.quoted k lines).flatten)])
+
 def dispatch (op : String) (j : Json) : Except String Json :=
   match op with
   | "c14.hyps" => c14Hyps j
@@ -192,6 +217,7 @@ def dispatch (op : String) (j : Json) : Except String Json :=
   | "c03.fragment2" => c03Fragment2 j
   | "c09.fragment" => c09Fragment j
   | "c09.fragment2" => c09Fragment2 j
+  | "c09.lists" => c09Lists j
   | "c19.outline" => c19Outline j
   | "c10.reflow" => c10Reflow j
   | "c06.spec" => c06Spec j
